@@ -33,8 +33,9 @@ def impl(s):
     out = []
     for k, args in f.argument_map.items():
         key = ('N%d' % k) if isinstance(k, int) else ('S' + enc_str(k))
-        ts = args[0].types
-        out.append('%s=%sx%d' % (key, '+'.join(t for t in TYPE_ORDER if t in ts), len(args)))
+        # every occurrence of the argument, not only the first: after __init__ each must carry the common type set
+        occ = ['+'.join(t for t in TYPE_ORDER if t in a.types) for a in args]
+        out.append('%s=%s' % (key, '|'.join(occ)))
     return 'ok ' + ';'.join(out)
 
 
@@ -150,6 +151,14 @@ def d24_shape(spec):
     return re.search(r',[bcoxX]$', spec) is not None or re.search(r'[ +\-#].*c$', spec) is not None
 
 
+def live_flat(s):
+    """'flat' / 'compound' / 'err': the property's notion of a flat string, read off the live parser's fields"""
+    fs = fields_of(s)
+    if fs is None:
+        return 'err'
+    return 'flat' if is_flat(fs) else 'compound'
+
+
 def oracle(s):
     """None or (kind, description, finding)"""
     r = impl(s)
@@ -169,7 +178,7 @@ def oracle(s):
         if not kv:
             continue
         k, v = kv.rsplit('=', 1)
-        sig[k] = v.rsplit('x', 1)[0].split('+')
+        sig[k] = v.split('|')[0].split('+')
     npos = max([int(k[1:]) + 1 for k in sig if k.startswith('N')] + [0])
     if npos > 50:
         return None
